@@ -45,6 +45,13 @@ def templates(cfg):
         T(f"{dn}.int_float", lambda p, t, u, d=d: t >> p.union(u, distinct=d), TUF)
         T(f"{dn}.null_col", lambda p, t, u, d=d: t >> p.mutate(b=None) >> p.union(u, distinct=d))
     ar = lambda p, t: t >> p.arrange(t.a.nulls_last(), t.b.nulls_last())  # noqa: E731
+    # an operand that is a real SQL subquery, then a projection AFTER the union: rows are compared as wholes, the
+    # projection must not reach below the union (F60: the subquery was pruned to the finally selected columns)
+    for d in (False, True):
+        dn = "distinct" if d else "all"
+        T(f"{dn}.subquery_left_select_after", lambda p, t, u, d=d: ar(p, t) >> p.slice_head(2) >> p.alias("z") >> p.union(u, distinct=d) >> p.select(p.C.a))
+        T(f"{dn}.subquery_right_select_after", lambda p, t, u, d=d: t >> p.union(u >> p.arrange(u.a.nulls_last(), u.b.nulls_last()) >> p.slice_head(2) >> p.alias("z"), distinct=d) >> p.select(p.C.b))
+        T(f"{dn}.subquery_both_summarize_after", lambda p, t, u, d=d: t >> p.mutate(w=t.a.max()) >> p.alias("y") >> p.filter(p.C.w > 0) >> p.drop(p.C.w) >> p.union(u >> p.mutate(w=u.b.min()) >> p.alias("z") >> p.filter(p.C.w < 1) >> p.drop(p.C.w), distinct=d) >> p.group_by(p.C.a) >> p.summarize(n=p.count()))
     for d in (False, True):
         dn = "distinct" if d else "all"
         T(f"{dn}.arrange_before_left", lambda p, t, u, d=d: ar(p, t) >> p.union(u, distinct=d))
